@@ -71,7 +71,7 @@ def is_harness_exc(e: BaseException) -> bool:
     while tb is not None:
         last = tb
         tb = tb.tb_next
-    if isinstance(e, InjectedFault):
+    if isinstance(e, InjectedFault) or getattr(e, "injected_fault", False):
         return False
     return last is not None and _os.path.abspath(last.tb_frame.f_code.co_filename).startswith(here) and not isinstance(e, AssertionError)
 
@@ -193,7 +193,7 @@ def make_chooser(spec) -> Chooser:
     if m == "trace":
         return Trace(spec.get("choices", ()), make_chooser(spec["then"]) if spec.get("then") else None)
     if m == "linepreempt":
-        return LinePreempt(spec["k"], tuple(spec.get("kinds", ("line",))), spec.get("order", "low"))
+        return LinePreempt(spec["k"], tuple(spec.get("kinds", ("line",))), spec.get("order", "low"), spec.get("stall", 0.0))
     raise ValueError(m)
 
 
@@ -201,7 +201,7 @@ def make_chooser(spec) -> Chooser:
 
 
 class Task:
-    __slots__ = ("id", "name", "sched", "sem", "state", "pred", "deadline", "timed_out", "thread", "exc", "orphan", "kind", "blocked_on", "last_line")
+    __slots__ = ("id", "name", "sched", "sem", "state", "pred", "deadline", "timed_out", "thread", "exc", "orphan", "kind", "blocked_on", "last_line", "pending_stall")
 
     def __init__(self, sched, tid, name):
         self.id = tid
@@ -217,6 +217,7 @@ class Task:
         self.exc = None
         self.kind = ""
         self.blocked_on = ""
+        self.pending_stall = None
 
     def __repr__(self):
         return f"<Task {self.id} {self.name} {self.state}>"
@@ -461,6 +462,13 @@ class Scheduler:
         self.kinds[kind] += 1
         if self.on_yield is not None:
             self.on_yield(self, t, kind)
+        stall = getattr(t, "pending_stall", None)
+        if stall:
+            # the chooser asked for this task to be descheduled across virtual time (a long preemption: GC pause,
+            # noisy neighbour): everything else, including timed waits, proceeds meanwhile
+            t.pending_stall = None
+            self.block(None, stall, "stall")
+            return
         self._switch(t)
         if self.aborting:
             raise SchedAbort()
@@ -1339,8 +1347,9 @@ class LinePreempt(Chooser):
     of the run (it only runs when nothing else can). Enumerating k gives every 'one long preemption at a source line'
     schedule - the shape of most check-then-act races - in O(lines) runs. Needs Scheduler.on_yield = chooser.on_yield."""
 
-    def __init__(self, k: int, kinds=("line",), order: str = "low"):
+    def __init__(self, k: int, kinds=("line",), order: str = "low", stall: float = 0.0):
         self.k = k
+        self.stall = stall  # > 0: the preempted task additionally sleeps that long (virtual) at the chosen line
         self.order = order  # which runnable task goes first when the current one cannot continue: "low" / "high" id, or "rand:<seed>"
         self._rnd = _random_mod.Random(int(order.split(":")[1]) * 100003 + k) if order.startswith("rand") else None
         self.kinds = set(kinds)
@@ -1352,6 +1361,8 @@ class LinePreempt(Chooser):
         if kind in self.kinds:
             if self.n == self.k:
                 self.demoted.add(task.id)
+                if self.stall:
+                    task.pending_stall = self.stall
                 self.where = (task.name, getattr(task, "last_line", None), round(sched.rel, 3))
             self.n += 1
             self.total = self.n
